@@ -5,7 +5,7 @@ import time
 import z3
 
 from vlib import env
-from vlib.zrun import explore_and_prove, wrapper_exc, eq_term, all_eq, concretize, pyrepr
+from vlib.zrun import twin_verdict, explore_and_prove, wrapper_exc, eq_term, all_eq, concretize, pyrepr
 from vlib.zsym import Int, Real, SymNum, SymBool, sym_int, fork_int, lift, model_value
 
 META = {
@@ -196,7 +196,7 @@ def task_arith(form, shape_sets):
                                           replay_src=REPLAY % dict(form=form, ops=pyrepr(cops), mult=pyrepr(mv))))
         if tw is None:
             ot = explore_and_prove(fn, assum, lambda q: goal(q, True), max_paths=60000, deadline_s=60, max_fail=1)
-            tw = "violated" if ot.failed else "passed"
+            tw = twin_verdict(ot)
     res["twin"] = tw
     res["sample"] = {"form": form, "operand shapes (reac keys, prod keys)": [SHAPES[s] for s in shape_sets[0]], "multipliers": "symbolic -3..3"}
     res["status"] = "violation" if res["violations"] else ("inconclusive" if res["inconclusive"] else "discharged")
@@ -372,7 +372,7 @@ def task_int_constant():
     o = explore_and_prove(fn, assum, goal, max_paths=200)
     ot = explore_and_prove(fn, assum, lambda q: goal(q, True), max_paths=200, max_fail=1)
     res = dict(engine="Z", functions=[env.describe(Equilibrium.__rmul__)], obligations=o.obligations, discharged=o.discharged, violations=[],
-               inconclusive=list(o.inconclusive), queries=o.queries, paths=o.paths, solver_s=o.solver_s, twin="violated" if ot.failed else "passed",
+               inconclusive=list(o.inconclusive), queries=o.queries, paths=o.paths, solver_s=o.solver_s, twin=twin_verdict(ot),
                bounds="plain int constants 8 and 3, multiplier -3..3 symbolic", sample={"claim": "(n*e).param == K**n"})
     for p, mdl, g in o.failed[:1]:
         nv = model_value(mdl, n.t)
